@@ -400,6 +400,7 @@ def shared_state_mutations(mod: Module, func: ast.AST) -> List[Tuple[str, str]]:
             return alias[e.id] + f" (through alias {e.id})"
         return None
     out = []
+    globals_ = {nm for n in ast.walk(func) if isinstance(n, ast.Global) for nm in n.names}
     for n in ast.walk(func):
         if isinstance(n, ast.Call) and isinstance(n.func, ast.Attribute) and n.func.attr in _MUT_METHODS:
             d = denotes(n.func.value)
@@ -412,6 +413,11 @@ def shared_state_mutations(mod: Module, func: ast.AST) -> List[Tuple[str, str]]:
                     d = denotes(t.value)
                     if d:
                         out.append((f"item store into {d}", " ".join(ast.unparse(n).split())[:100]))
+                # a class attribute (re)bound from inside a function: state that outlives the call and is shared by every object
+                if isinstance(t, ast.Attribute) and isinstance(t.value, ast.Name) and (t.value.id == "cls" or t.value.id in mod.classes) and t.value.id not in params - {"cls"}:
+                    out.append((f"class attribute {t.attr} assigned", " ".join(ast.unparse(n).split())[:100]))
+                if isinstance(t, ast.Name) and t.id in globals_:
+                    out.append((f"module-level name {t.id} assigned (global)", " ".join(ast.unparse(n).split())[:100]))
     return out
 
 
